@@ -56,6 +56,19 @@ def _chunk(item):
                         bad(op, sa, None, "inexact", fval(r), want)
                 except Exception as e:
                     bad(op, sa, None, "raised", short_exc(e))
+            # a plain number on either side of the operator
+            for k in (5, Decimal("2.5"), -3):
+                fk = Fraction(k)
+                for op, fn, want in (("num+x", lambda: k + A, fk + va), ("x+num", lambda: A + k, va + fk), ("num-x", lambda: k - A, fk - va),
+                                     ("x-num", lambda: A - k, va - fk), ("num*x", lambda: k * A, fk * va), ("x*num", lambda: A * k, va * fk)):
+                    n += 1
+                    try:
+                        r = fn()
+                        if not isinstance(r, Prefixed) or fval(r) != want:
+                            bad(op, sa, None, "inexact", str(fval(r)) if isinstance(r, Prefixed) else r, str(want))
+                        outcomes.add(op + ":ok")
+                    except Exception as e:
+                        bad(op, sa, None, "raised", short_exc(e))
             for et in PREFIX_EXPS:
                 n += 1
                 try:
